@@ -263,7 +263,11 @@ func (t Dimension) serializeTo(writer io.StringWriter) {
 	writer.WriteString(t.Value)
 	// Disambiguate with scientific notation
 	if t.Unit == "e" || t.Unit == "E" || strings.HasPrefix(t.Unit, "e-") || strings.HasPrefix(t.Unit, "E-") {
-		writer.WriteString("\\65 ")
+		if t.Unit[0] == 'E' {
+			writer.WriteString("\\45 ")
+		} else {
+			writer.WriteString("\\65 ")
+		}
 		writer.WriteString(serializeName(t.Unit[1:]))
 	} else {
 		writer.WriteString(serializeIdentifier(t.Unit))
